@@ -1,0 +1,29 @@
+//go:build verif
+
+package peering
+
+import (
+	"net"
+
+	"github.com/mycoria/mycoria/m"
+)
+
+// VerifSetupLink runs the real link setup (the exact code tcpPeerWith and the
+// listener run) over a caller-supplied connection.
+// Verification hook: only compiled with the "verif" build tag.
+func (p *Peering) VerifSetupLink(conn net.Conn, peeringURL *m.PeeringURL, outgoing bool) (Link, error) {
+	link, err := newLinkBase(conn, peeringURL, outgoing, p).handleSetup(p.mgr)
+	if err != nil || link == nil {
+		return nil, err
+	}
+	return link, nil
+}
+
+// VerifSetupLinkAsListener runs the link setup the way the listener worker
+// does (setupWorker), over a caller-supplied connection. It returns when the
+// setup worker has finished (successfully or not).
+// Verification hook: only compiled with the "verif" build tag.
+func (p *Peering) VerifSetupLinkAsListener(conn net.Conn, peeringURL *m.PeeringURL) {
+	link := newLinkBase(conn, peeringURL, false, p)
+	_ = p.mgr.Do("verif setup link", link.setupWorker)
+}
